@@ -30,7 +30,7 @@ MANIFEST = dict(
              "vectors and the csg_map executable/file formats are not covered.")
 
 
-def _xml(md, prefix=""):
+def _xml(md, prefix="", ident="M"):
     beads, maps = [], []
     for k, bd in enumerate(md["beads"]):
         beads.append("<cg_bead><name>B%d</name><type>T%d</type><symmetry>%d</symmetry><mapping>m%d</mapping>"
@@ -38,8 +38,8 @@ def _xml(md, prefix=""):
                                                       " ".join("%sA%d" % (prefix, i) for i in bd["par"])))
         d = "<d>%s</d>" % " ".join(str(x) for x in bd["d"]) if bd["d"] else ""
         maps.append("<map><name>m%d</name><weights>%s</weights>%s</map>" % (k + 1, " ".join(str(x) for x in bd["w"]), d))
-    return ("<cg_molecule><name>CG</name><ident>M</ident><topology><cg_beads>\n%s\n</cg_beads></topology>"
-            "<maps>\n%s\n</maps></cg_molecule>\n" % ("\n".join(beads), "\n".join(maps)))
+    return ("<cg_molecule><name>CG%s</name><ident>%s</ident><topology><cg_beads>\n%s\n</cg_beads></topology>"
+            "<maps>\n%s\n</maps></cg_molecule>\n" % (ident, ident, "\n".join(beads), "\n".join(maps)))
 
 
 def _has(pattern, i):     # i = 1-based atom index
@@ -76,7 +76,10 @@ def _parse_frame(lines):
             out["beads"].append({"name": p[2], "mol": int(p[4]), "mass": float(p[6]),
                                  "hp": p[8] == "1", "pos": [float(t) for t in p[9:12]],
                                  "hv": p[13] == "1", "vel": [float(t) for t in p[14:17]],
-                                 "hf": p[18] == "1", "f": [float(t) for t in p[19:22]]})
+                                 "hf": p[18] == "1", "f": [float(t) for t in p[19:22]],
+                                 "ell": len(p) > 23 and p[23] == "1",
+                                 "U": [float(t) for t in p[24:27]], "V": [float(t) for t in p[27:30]],
+                                 "W": [float(t) for t in p[30:33]]})
     if "type" not in out:
         return "exc", "exc no output"
     return "ok", out
@@ -92,15 +95,17 @@ class _Checker:
         self.exe = exe
         self.xml = {}
         self.exec_pool = []
+        self.sticky = {}
+        self.prev = None
         self.stats = {"histories": 0, "frames": 0, "err_yes": 0, "err_either": 0, "err_no": 0, "open": 0,
                       "boxchange": 0, "ops": {}}
 
-    def xmlfile(self, md):
-        key = json.dumps(md, sort_keys=True)
+    def xmlfile(self, md, ident="M"):
+        key = ident + json.dumps(md, sort_keys=True)
         if key not in self.xml:
             path = vlib.scratch_file("c01-map-%d.xml" % len(self.xml))
             with open(path, "w") as f:
-                f.write(_xml(md))
+                f.write(_xml(md, ident=ident))
             self.xml[key] = path
         return self.xml[key]
 
@@ -119,7 +124,7 @@ class _Checker:
             md = r["md"]
             cmds = ["top 2 %d %s" % (md["n"], " ".join(str(m) for m in md["mass"])), "map " + self.xmlfile(md)]
             for st in r["h"]:
-                cmds.append(_frame_cmd(st["box"], [st["pos"], st["pos2"]], st["vel"], st["frc"], r["fl"]))
+                cmds.append(_frame_cmd(st["box"], [st["pos"], st["pos2"]], st["vel"], st["frc"], st["fl"]))
             items.append((i, cmds))
         results, crashes = vlib.run_items(self.exe, items)
         for i, r in enumerate(hists):
@@ -141,16 +146,20 @@ class _Checker:
                 ctx.violation("CreateCGTopology:exception", "%s for mapping %s" % (mapline, r["md"]), rep)
                 continue
             prevbox = None
+            self.sticky = {}      # (bead index, what) -> an earlier frame of this object set that flag
+            self.prev = None      # (step record, observation) of the previous accepted frame
             for j, st in enumerate(r["h"]):
-                self.frame(r["md"], r["fl"], st, out[2 + j], rep, j)
+                if j and st["fl"] != r["h"][j - 1]["fl"]:
+                    self.stats["flagchange"] = self.stats.get("flagchange", 0) + 1
+                self.frame(r["md"], st["fl"], st, out[2 + j], rep, j)
                 if prevbox is not None and prevbox != st["box"]:
                     self.stats["boxchange"] += 1
                 prevbox = st["box"]
             if any(st["err"] != "no" or st["op"] != "load" for st in r["h"]):
-                ctx.nontriv(("h", json.dumps(r["md"]["beads"]), json.dumps(r["fl"]),
+                ctx.nontriv(("h", json.dumps(r["md"]["beads"]),
                              json.dumps([[st["op"], st["box"], st["pos"]] for st in r["h"]])))
 
-    def frame(self, md, fl, st, lines, rep, j):
+    def frame(self, md, fl, st, lines, rep, j, exp=None):
         """compare one Apply() with the expectation st (from TLC)"""
         ctx = self.ctx
         s = self.stats
@@ -163,7 +172,10 @@ class _Checker:
             s["open"] += 1
         kind, o = _parse_frame(lines)
         where = "frame %d (%s, box %s %s)" % (j, st["op"], typ, st["box"])
+        cur = {}
         if kind == "exc":
+            self.sticky["err"] = True     # beads mapped before the throwing one were updated: flags unknown
+            self.prev = None
             if "bigger than half the box" not in o and "bigger than half" not in " ".join(lines):
                 ctx.violation("Apply:exception", "%s: unexpected exception %s" % (where, o), rep)
             elif st["err"] == "no":
@@ -172,6 +184,7 @@ class _Checker:
                                    "height of the first parent; pos %s / %s" % (where, st["pos"], st["pos2"]), rep)
             return
         if st["err"] == "yes":
+            self.prev = None
             ctx.violation("Apply:no-rejection:%s" % typ,
                           "%s: a parent is farther than half the shortest box height from the first parent but "
                           "Apply() did not throw; pos %s / %s" % (where, st["pos"], st["pos2"]), rep)
@@ -180,12 +193,13 @@ class _Checker:
         if o["type"] != typ or o["box"] != m:
             ctx.violation("Apply:cgbox", "%s: CG topology has box %s type %s, expected %s type %s" %
                           (where, o["box"], o["type"], m, typ), rep)
-        exp = [(0, k, e) for k, e in enumerate(st["out"])] + [(1, k, e) for k, e in enumerate(st["out2"])]
+        if exp is None:
+            exp = [(0, k, e, md["beads"][k]) for k, e in enumerate(st["out"])] + \
+                  [(1, k, e, md["beads"][k]) for k, e in enumerate(st["out2"])]
         if len(o["beads"]) != len(exp):
             ctx.violation("Apply:bead-count", "%s: %d CG beads, expected %d" % (where, len(o["beads"]), len(exp)), rep)
             return
-        for (mol, k, e), b in zip(exp, o["beads"]):
-            bd = md["beads"][k]
+        for (mol, k, e, bd), b in zip(exp, o["beads"]):
             sym = "sphere" if bd["sym"] == 1 else "ellipsoid"
             tag = "%s bead B%d of molecule %d (%s, parents %s w %s d %s)" % (where, k + 1, mol + 1, sym, bd["par"],
                                                                                bd["w"], bd["d"])
@@ -195,26 +209,152 @@ class _Checker:
             if not vlib.close(b["mass"], float(e["mass"]), 1e-12, 0):
                 ctx.violation("mass:%s" % sym, "%s: mass %r, expected the sum of the parent masses %d" %
                               (tag, b["mass"], e["mass"]), rep)
-            if b["hp"] != e["hasPos"]:
-                ctx.violation("flags:pos:%s" % sym, "%s: HasPos=%s expected %s" % (tag, b["hp"], e["hasPos"]), rep)
-            elif e["hasPos"]:
+            # flags: a value the parents carry in this frame must be there and right; when the parents do
+            # not carry it, the CG bead of an object that had it in an earlier frame keeps flag and stale
+            # value (never reset by the code, not specified anywhere): admitted, nothing asserted about it
+            def flag(what, got, want):
+                if got == want:
+                    return want
+                if got and not want and (self.sticky.get((mol, k, what)) or self.sticky.get("err")):
+                    s["sticky_" + what] = s.get("sticky_" + what, 0) + 1
+                    return False
+                ctx.violation("flags:%s:%s" % (what, sym), "%s: Has%s=%s expected %s" % (tag, what, got, want), rep)
+                return False
+            if flag("pos", b["hp"], e["hasPos"]):
                 cands = [[x / (e["W"] * U) for x in c] for c in e["cands"]]
                 if not any(_vclose(b["pos"], c) for c in cands):
                     ctx.violation("pos:%s:%s" % (sym, typ), "%s: position %s (nm), expected %s; atoms %s" %
-                                  (tag, b["pos"], cands, st["pos"] if mol == 0 else st["pos2"]), rep)
-            if b["hv"] != e["hasVel"]:
-                ctx.violation("flags:vel:%s" % sym, "%s: HasVel=%s expected %s" % (tag, b["hv"], e["hasVel"]), rep)
-            elif e["hasVel"]:
+                                  (tag, b["pos"], cands, st.get("pos" if mol == 0 else "pos2", "")), rep)
+            if flag("vel", b["hv"], e["hasVel"]):
                 v = [x / e["W"] for x in e["velnum"]]
                 if not _vclose(b["vel"], v):
                     ctx.violation("vel:%s" % sym, "%s: velocity %s expected %s" % (tag, b["vel"], v), rep)
-            if b["hf"] != e["hasF"]:
-                ctx.violation("flags:force:%s" % sym, "%s: HasF=%s expected %s" % (tag, b["hf"], e["hasF"]), rep)
-            elif e["hasF"]:
+            if flag("force", b["hf"], e["hasF"]):
                 f = [x / e["fden"] for x in e["fnum"]]
                 if not _vclose(b["f"], f):
                     ctx.violation("force:%s:%s" % (sym, "d" if bd["d"] else "no-d"),
                                   "%s: force %s expected %s" % (tag, b["f"], f), rep)
+            for what, got in (("pos", b["hp"]), ("vel", b["hv"]), ("force", b["hf"])):
+                if got:
+                    self.sticky[(mol, k, what)] = True
+            if e["ell"]["on"] and e["hasPos"] and st["err"] == "no" and len(e["cands"]) == 1:
+                self.orientation(tag, b, e, st, (mol, k), rep, cur)
+        self.prev = cur
+
+    def orientation(self, tag, b, e, st, bk, rep, cur):
+        """ellipsoidal bead with >= 3 parents, documentation of Bead::getU/getV/getW: u = eigenvector of the
+        lowest eigenvalue of the parents' gyration tensor, v = connection first -> second parent (or its
+        component orthogonal to u: the documentation names both), w orthogonal to u and v, right-handed;
+        and, as part of the mapped frame, unchanged by whole-box shifts of parents and rigid translations."""
+        ctx = self.ctx
+        s = self.stats
+        s["orient"] = s.get("orient", 0) + 1
+        if not b["ell"]:
+            ctx.violation("orient:ellipsoid:missing", "%s: no orientation vectors" % tag, rep)
+            return
+        Uv, Vv, Wv = b["U"], b["V"], b["W"]
+        dot = lambda a, c: sum(x * y for x, y in zip(a, c))
+        cross = lambda a, c: [a[1] * c[2] - a[2] * c[1], a[2] * c[0] - a[0] * c[2], a[0] * c[1] - a[1] * c[0]]
+        norm = lambda a: dot(a, a) ** 0.5
+        what = "%s: u=%s v=%s w=%s" % (tag, Uv, Vv, Wv)
+        if any(abs(norm(x) - 1) > 1e-9 for x in (Uv, Vv, Wv)):
+            ctx.violation("orient:ellipsoid:not-unit", what, rep)
+            return
+        G = e["ell"]["G"]
+        tr = float(G[0][0] + G[1][1] + G[2][2])
+        d2, d3 = e["ell"]["d2"], e["ell"]["d3"]
+        if tr > 0:
+            Gu = [dot(row, Uv) for row in G]
+            lam = dot(Uv, Gu)
+            res = norm([Gu[c] - lam * Uv[c] for c in range(3)])
+            e2 = (G[0][0] * G[1][1] - G[0][1] ** 2) + (G[0][0] * G[2][2] - G[0][2] ** 2) + (G[1][1] * G[2][2] - G[1][2] ** 2)
+            pp = e2 - 2 * lam * (tr - lam) + lam * lam      # (mu1 - lam)(mu2 - lam) for the two other eigenvalues
+            if pp > 1e-5 * tr * tr:                         # lowest eigenvalue not degenerate: u is determined
+                s["orient_u"] = s.get("orient_u", 0) + 1
+                if res > 1e-6 * tr or lam > tr / 3 + 1e-6 * tr:
+                    ctx.violation("orient:ellipsoid:u", "%s is not the eigenvector of the lowest eigenvalue of the "
+                                  "gyration tensor %s of the unwrapped parents (residual %g, Rayleigh quotient %g, trace %g)"
+                                  % (what, G, res, lam, tr), rep)
+            elif res > 1e-4 * tr and pp < -1e-5 * tr * tr:
+                ctx.violation("orient:ellipsoid:u", "%s: u is not an eigenvector of the lowest eigenvalue" % what, rep)
+        if any(d2):
+            n2 = norm(d2)
+            perp = [d2[c] - dot(d2, Uv) * Uv[c] for c in range(3)]
+            ok_code = norm(cross(Vv, d2)) <= 1e-7 * n2 and dot(Vv, d2) > 0
+            ok_doc = norm(perp) > 1e-7 * n2 and norm(cross(Vv, perp)) <= 1e-6 * n2 and dot(Vv, perp) > 0
+            if not (ok_code or ok_doc):
+                ctx.violation("orient:ellipsoid:v", "%s: v is not the direction from the first to the second "
+                              "(unwrapped) parent %s" % (what, d2), rep)
+        if abs(dot(Wv, Uv)) > 1e-7 or (abs(dot(Wv, Vv)) > 1e-7):
+            ctx.violation("orient:ellipsoid:w", "%s: w is not orthogonal to u and v" % what, rep)
+        elif dot(cross(Uv, Vv), Wv) <= 0:
+            ctx.violation("orient:ellipsoid:handedness", "%s: (u, v, w) is not right-handed" % what, rep)
+        cur[bk] = (Uv, Vv, Wv)
+        if st["op"] in ("shift", "trans") and self.prev and bk in self.prev:
+            s["orient_rel"] = s.get("orient_rel", 0) + 1
+            if any(not _vclose(x, y, 1e-7) for x, y in zip((Uv, Vv, Wv), self.prev[bk])):
+                ctx.violation("orient:ellipsoid:%s" % ("image-variance" if st["op"] == "shift" else "translation-variance"),
+                              "%s: the orientation changed from %s when %s" %
+                              (what, self.prev[bk], "atom %d was displaced by whole box vectors" % st["arg"]
+                               if st["op"] == "shift" else "all atoms were translated"), rep)
+
+    # ---- several molecule types / definitions / ignored types / CGEngine reuse -------------------------
+    def mixed(self, vecs):
+        ctx = self.ctx
+        names = {"A": "MA", "B": "MB", "X": "MX"}
+        fl = {"hp": True, "hv": "all", "hf": "all"}
+        items = []
+        for i, r in enumerate(vecs):
+            top = "topx %d " % len(r["mols"]) + " ".join(
+                "%s %d %s" % (names[m["type"]], m["n"], " ".join(str(x) for x in m["mass"])) for m in r["mols"])
+            files = self.xmlfile(r["mdA"], "MA") + ";" + self.xmlfile(r["mdB"], "MB")
+            parts = ["frame"] + [repr(r["box"][c][k] / U) for k in range(3) for c in range(3)]
+            for m in r["mols"]:
+                for a in range(m["n"]):
+                    parts += ["1"] + [repr(x / U) for x in m["pos"][a]]
+                    parts += ["1"] + [repr(float(x)) for x in m["vel"][a]]
+                    parts += ["1"] + [repr(float(x)) for x in m["frc"][a]]
+            fr = " ".join(parts)
+            # the unmapped type is either ignored explicitly (pattern with a wildcard) or has no definition
+            items.append((i, [top, "map %s%s" % (files, " M?X" if r["ign"] else ""), fr, "remap", fr]))
+        results, crashes = vlib.run_items(self.exe, items)
+        s = self.stats
+        for i, r in enumerate(vecs):
+            ctx.traces += 1
+            rep = {"mixed": r}
+            s["mixed"] = s.get("mixed", 0) + 1
+            hasx = any(m["type"] == "X" for m in r["mols"])
+            if hasx:
+                s["mixed_ignored" if r["ign"] else "mixed_unknown"] = s.get("mixed_ignored" if r["ign"] else "mixed_unknown", 0) + 1
+            ctx.nontriv(("mixed", i))
+            if i in crashes:
+                ctx.violation("mixed:crash", "driver died: " + crashes[i], rep)
+                continue
+            out = results[i]
+            exp, cgmol = [], 0
+            for m in r["mols"]:
+                if m["type"] == "X":
+                    continue
+                md = r["mdA"] if m["type"] == "A" else r["mdB"]
+                exp += [(cgmol, k, e, md["beads"][k]) for k, e in enumerate(m["out"])]
+                cgmol += 1
+            for which, (ci, fi) in (("first map", (1, 2)), ("second map of the same CGEngine", (3, 4))):
+                mapline = next((ln for ln in out[ci] if ln.startswith(("ok", "exc"))), "exc no output")
+                if mapline.startswith("exc"):
+                    ctx.violation("mixed:CreateCGTopology:exception", "%s: %s for molecules %s" %
+                                  (which, mapline, [m["type"] for m in r["mols"]]), rep)
+                    continue
+                tok = mapline.split()
+                if int(tok[1]) != len(exp) or int(tok[3]) != cgmol:
+                    ctx.violation("mixed:CreateCGTopology:size", "%s: %s beads in %s CG molecules, expected %d in %d "
+                                  "(molecule types %s, %s)" % (which, tok[1], tok[3], len(exp), cgmol,
+                                                              [m["type"] for m in r["mols"]],
+                                                              "X ignored" if r["ign"] else "X has no definition"), rep)
+                    continue
+                self.sticky, self.prev = {}, None
+                st = {"err": r["err"], "op": "mixed" if ci == 1 else "remap", "typ": r["typ"], "box": r["box"],
+                      "pos": [m["pos"] for m in r["mols"]], "pos2": "", "arg": 0}
+                self.frame(None, fl, st, out[fi], rep, 0, exp=exp)
 
     # ---- executable level: csg_map on files written from TLC histories -----------------------------------
     def collect_exec(self, hists, limit):
@@ -223,7 +363,10 @@ class _Checker:
         for r in hists:
             if len(self.exec_pool) >= limit:
                 return
-            if r["initerr"] or not r["fl"]["hp"] or r["fl"]["hv"] not in ("all", "none"):
+            if r["initerr"] or not r["h"]:
+                continue
+            fl = r["h"][0]["fl"]
+            if not fl["hp"] or fl["hv"] not in ("all", "none") or any(st["fl"] != fl for st in r["h"]):
                 continue
             if any(st["err"] != "no" for st in r["h"]) or not r["h"]:
                 continue
@@ -237,7 +380,7 @@ class _Checker:
         ctx = self.ctx
         exe = os.path.join(bindir, "csg_map")
         for idx, r in enumerate(self.exec_pool):
-            md, fl = r["md"], r["fl"]
+            md, fl = r["md"], r["h"][0]["fl"]
             d = vlib.scratch_file("c01-exec-%d" % idx)
             os.makedirs(d, exist_ok=True)
             n = md["n"]
@@ -487,11 +630,10 @@ def run(ctx):
 
         # ---- 2. exhaustive histories -------------------------------------------------------------------------
         cfg = "MCCgHistQuick.cfg" if quick else "MCCgHistThorough.cfg"
-        picks = [lambda r: any(s["op"] == "shift" for s in r["h"]) and all(s["err"] == "no" for s in r["h"])
-                 and r["fl"]["hp"], lambda r: any(s["err"] == "yes" for s in r["h"]),
+        picks = [lambda r: any(s["op"] == "shift" for s in r["h"]) and all(s["err"] == "no" and s["fl"]["hp"] for s in r["h"]), lambda r: any(s["err"] == "yes" for s in r["h"]),
                  lambda r: any(s["typ"] == "open" for s in r["h"]) and len(r["md"]["beads"]) == 2]
         # thorough: one run per mapping definition (keeps the exported histories of one run in memory only)
-        for sel in ([None] if quick else list(range(1, 9))):
+        for sel in ([None] if quick else list(range(1, 10))):
             res = vlib.tlc("cgmap", "MCCg", cfg=cfg, timeout=2400, env=({} if sel is None else {"C01_MD": sel}))
             vlib.tlc_must_hold(res, "CgHist invariants")
             ctx.add_tlc(cfg[:-4] + ("" if sel is None else "[md %d]" % sel), res)
@@ -500,7 +642,7 @@ def run(ctx):
                 raise vlib.InfraError("no histories exported")
             res.out = ""
             chk.histories(hists)
-            chk.collect_exec(hists, (12 if quick else 40) * (1 if sel is None else sel) // (1 if sel is None else 8) + 1)
+            chk.collect_exec(hists, (12 if quick else 40) * (1 if sel is None else sel) // (1 if sel is None else 9) + 1)
             for pick in list(picks):
                 for r in hists:
                     if pick(r):
@@ -509,9 +651,19 @@ def run(ctx):
                         break
             del hists, res
 
+        # ---- 2b. several molecule types, several definitions, ignored / unknown types, CGEngine reuse -----------
+        cfg = "MCCgMixedQuick.cfg" if quick else "MCCgMixedThorough.cfg"
+        res = vlib.tlc("cgmap", "MCCgMixed", cfg=cfg, timeout=2400)
+        vlib.tlc_must_hold(res, "CgMixed invariants")
+        ctx.add_tlc(cfg[:-4], res)
+        chk.mixed(res.records)
+        if res.records:
+            ctx.sample({"mixed": res.records[len(res.records) // 3]})
+        del res
+
         # ---- 3. deeper simulated histories ------------------------------------------------------------------------
         for batch in range(1 if quick else 5):
-            res = vlib.tlc("cgmap", "MCCg", cfg="MCCgSim.cfg", timeout=2400, simulate=(16 if quick else 80), depth=5,
+            res = vlib.tlc("cgmap", "MCCg", cfg="MCCgSim.cfg", timeout=2400, simulate=(6 if quick else 60), depth=5,
                            workers=4, seed=ctx.seed * 100 + batch)
             vlib.tlc_must_hold(res, "CgHist simulation")
             ctx.add_tlc("MCCgSim(simulate %d)" % batch, res)
@@ -522,7 +674,9 @@ def run(ctx):
             del sims, res
         st = chk.stats
         if not (st["err_yes"] and st["err_no"] and st["err_either"] and st["open"] and st["boxchange"]
-                and st["ops"].get("shift") and st["ops"].get("trans")):
+                and st["ops"].get("shift") and st["ops"].get("trans") and st.get("flagchange") and st.get("orient_u")
+                and st.get("orient_rel") and st.get("mixed_ignored") and st.get("mixed_unknown")
+                and st["ops"].get("remap")):
             raise vlib.InfraError("vacuous history set: %s" % st)
 
         # ---- 4. executable level: csg_map gro -> gro -----------------------------------------------------------------
